@@ -166,8 +166,22 @@ fn section_ref(s: u64) -> Section {
     }
     g
 }
-fn section_real(s: u64) -> Section {
-    section_ref(s)
+/// the crate's field receives the GUID in whatever type it declares (so that the harness builds against either)
+pub trait FromSection {
+    fn from_section(g: Section) -> Self;
+}
+impl FromSection for Section {
+    fn from_section(g: Section) -> Self {
+        g
+    }
+}
+impl FromSection for u16 {
+    fn from_section(g: Section) -> Self {
+        u16::from_le_bytes([g[0], g[1]])
+    }
+}
+fn section_real<T: FromSection>(s: u64) -> T {
+    T::from_section(section_ref(s))
 }
 
 pub fn instances(seed: u64, quick: bool) -> Vec<S> {
